@@ -304,11 +304,21 @@ func c24Commit(cs *blockchain.ChainState) {
 	cs.GetPosteriorStates().SetState(blockchain.NewPosteriorStates().GetState())
 }
 
+var c24PriorMutated int
+
 func c24RunSingle(r *vlib.Run, c c24Case) string {
 	cs := c24Reset()
-	cs.GetPriorStates().SetAlpha(types.AuthPools{c.P[0].build(), c.P[1].build()})
+	prior := types.AuthPools{c.P[0].build(), c.P[1].build()}
+	snap := [2][]types.AuthorizerHash{append([]types.AuthorizerHash(nil), prior[0]...), append([]types.AuthorizerHash(nil), prior[1]...)}
+	p0, p1 := prior[0], prior[1]
+	cs.GetPriorStates().SetAlpha(prior)
 	got, err, panicked, msg := c24Apply(cs, c.Slot, c.G, c.Desc)
 	r.Transition()
+	// diagnostic only (not asserted, the statement does not require it): did the call write into the
+	// arrays of the prior state's pools?
+	if !c24Equal(snap[0], p0) || !c24Equal(snap[1], p1) {
+		c24PriorMutated++
+	}
 	r.Eval()
 	qs := c24Queues()
 	var canon strings.Builder
@@ -520,4 +530,5 @@ func TestVerif_C24(t *testing.T) {
 			})
 		}
 	}
+	r.Extra("sum_diagnostic_cases_where_prior_state_pool_array_was_overwritten", c24PriorMutated)
 }
